@@ -97,6 +97,7 @@ PROPS["C07"] = {  # gen: Gen/Kernels.v (vkernel.py)
         {"name": "C07_increment", "status": "proved", "statement": "LE(increment bs) = (LE bs + 1) mod 256^|bs| for every byte string"},
         {"name": "C07_onetimeauth_verify_iff", "status": "proved", "statement": "verify = Ok iff mac = onetimeauth key msg"},
         {"name": "C07_auth_verify_iff", "status": "proved", "statement": "verify = Ok iff mac = auth key msg"},
+        {"name": "C07_auth_is_hmac", "status": "proved", "statement": "forall key, message: crypto_auth as crypto_auth.rs builds it (inner and outer SHA-512 contexts keyed with key xor 0x36.. / 0x5c.. padded to 128 bytes, inner digest fed to the outer context, first 32 bytes) = HMAC-SHA-512-256 (RFC 2104 over the SHA-512 specification)"},
         {"name": "C07_poly1305", "status": "proved", "statement": "forall 32-byte key, message: crypto_onetimeauth (model of poly1305_soft.rs: key clamping into 44/44/42-bit limbs, block loading, multiplication / carry, buffering, finalize with two carry rounds, conditional subtraction of p, pad addition, packing) = RFC 8439 Poly1305"},
         {"name": "C07_poly1305_block", "status": "proved", "statement": "one block step: limb value = ((acc + n) * r) mod p, limbs stay carried, every u128 sum < 2^92 (no overflow of any checked operation; every `as u64` exact)"},
         {"name": "C07_poly1305_block_is_code", "status": "proved", "statement": "the Rust block body with its masks, shifts, `as u64` and wrapping_add = that arithmetic step on the loaded limbs"},
@@ -126,6 +127,7 @@ PROPS["C08"] = {
         {"name": "C08_generichash", "status": "proved", "statement": "init/update*/final over any chunk list = single update of the concatenation"},
         {"name": "C08_poly1305_update_chunks", "status": "proved", "statement": "forall sequences of update calls: the Poly1305 state is the absorbed view of the concatenation (whole 16-byte blocks folded into h, remainder < 16 bytes buffered)"},
         {"name": "C08_onetimeauth_chunks", "status": "proved", "statement": "forall key, chunking: incremental onetimeauth = RFC 8439 Poly1305 of the concatenation"},
+        {"name": "C08_auth_chunks", "status": "proved", "statement": "forall key, forall lists of update calls: crypto_auth_init / update.. / final = crypto_auth of the concatenation"},
         {"name": "C08_external_hasher", "status": "proved", "statement": "any hasher with update (update s a) b = update s (a++b) and update s [] = s: fold = one update (sha2-backed interfaces)"},
         {"name": "C08_example", "status": "proved", "statement": "non-vacuity example by vm_compute"},
     ],
